@@ -1,8 +1,8 @@
 use poulpy_hal::{
     api::{
         ScratchAvailable, ScratchTakeBasic, VecZnxAutomorphismAssign, VecZnxAutomorphismAssignTmpBytes, VecZnxBigAddSmallAssign,
-        VecZnxBigAutomorphismAssign, VecZnxBigAutomorphismAssignTmpBytes, VecZnxBigNormalize, VecZnxBigSubSmallAssign,
-        VecZnxBigSubSmallNegateAssign, VecZnxNormalize,
+        VecZnxBigAutomorphismAssign, VecZnxBigAutomorphismAssignTmpBytes, VecZnxBigNormalize, VecZnxBigNormalizeTmpBytes,
+        VecZnxBigSubSmallAssign, VecZnxBigSubSmallNegateAssign, VecZnxNormalize,
     },
     layouts::{Backend, Module, Scratch, VecZnxBig},
 };
@@ -26,6 +26,7 @@ pub(crate) trait GLWEAutomorphismDefault<BE: Backend>:
     + VecZnxBigSubSmallNegateAssign<BE>
     + VecZnxBigAddSmallAssign<BE>
     + VecZnxBigNormalize<BE>
+    + VecZnxBigNormalizeTmpBytes
     + GLWENormalize<BE>
 where
     Scratch<BE>: ScratchTakeCore<BE>,
@@ -45,7 +46,23 @@ where
             .vec_znx_automorphism_assign_tmp_bytes()
             .max(self.vec_znx_big_automorphism_assign_tmp_bytes());
 
-        lvl_0.max(lvl_1)
+        // The add/sub variants apply the automorphism to, and normalise from, the key-switch accumulator
+        // while it (and, across radices, the converted input) still occupies the scratch.
+        let res_dft: usize = self.bytes_of_vec_znx_dft(res_infos.rank().as_usize() + 1, key_infos.size());
+        let a_conv: usize = if a_infos.base2k() != key_infos.base2k() {
+            GLWE::<Vec<u8>>::bytes_of_from_infos(&GLWELayout {
+                n: a_infos.n(),
+                base2k: key_infos.base2k(),
+                k: a_infos.max_k(),
+                rank: a_infos.rank(),
+            })
+        } else {
+            0
+        };
+
+        lvl_0
+            .max(lvl_1)
+            .max(res_dft + a_conv + lvl_1.max(self.vec_znx_big_normalize_tmp_bytes()))
     }
 
     fn glwe_automorphism_default<R, A, K>(&self, res: &mut R, a: &A, key: &K, scratch: &mut Scratch<BE>)
@@ -375,6 +392,7 @@ where
         + VecZnxBigSubSmallNegateAssign<BE>
         + VecZnxBigAddSmallAssign<BE>
         + VecZnxBigNormalize<BE>
+        + VecZnxBigNormalizeTmpBytes
         + GLWENormalize<BE>,
     Scratch<BE>: ScratchTakeCore<BE>,
 {
